@@ -802,6 +802,20 @@ func ruleR11_4(c *Check) {
 			okg = true
 		}
 		r.Check(plus1 && okg, own, "nextTxnTs raised above every loaded version", as, "Load does not maintain nextTxnTs = max(nextTxnTs, version+1)")
+		// … for EVERY entry: besides that comparison, the loops and error returns, nothing decides
+		// whether an entry takes part (a delete marker or an expired entry is a stored version too)
+		for _, g := range w.Guards(own, as) {
+			if _, ok := w.cmpRoles(g.Cond, g.Val, w.isField(ver), w.isField(next)); ok {
+				continue
+			}
+			if _, isFor := g.At.(*ast.ForStmt); isFor {
+				continue
+			}
+			if g.Implicit && (w.errNonNil(g.Cond, !g.Val) || w.mentions(g.Cond, w.Obj("io.EOF"))) {
+				continue
+			}
+			r.Check(false, own, "every loaded entry takes part in the raise", as, "an entry is left out of the nextTxnTs raise depending on "+short(w, g.Cond)+": the next commit can get a timestamp at or below a stored version")
+		}
 		return true
 	})
 	r.Exists(n == 1, f, "raise site", nil, "Load no longer raises nextTxnTs")
